@@ -66,6 +66,13 @@ CAUSES["C06"] = [
 ]
 
 
+CAUSES["C09"] = [
+    (("mem/comprehension", "mem/local_list", "mem/list_in_function", "mem/reassign_literal"),
+     "a list created in the main-loop body or in a function (literal, comprehension, re-assignment) is a fresh new[] on every pass and is never deleted: the heap grows although the python program's live data is constant"),
+    (("mem/alias_decl",), "`b = a` for lists copies the {data,size} struct: after a.append() frees and re-allocates the buffer, b still points at the freed block (use after free)"),
+]
+
+
 def main():
     prop = sys.argv[1]
     path = os.path.join(ROOT, "known_findings.json")
